@@ -8,6 +8,7 @@ From Bac Require Import TagFacts.
 From Bac Require Import Schema.
 From Bac Require Import Codec.
 From Bac Require Import CodecFacts.
+From Bac Require Import CodecWf.
 From Bac Require Import SchemaTables.
 From BacGen Require Import Schemas.
 Open Scope N_scope.
@@ -24,16 +25,23 @@ Theorem C03_roundtrip_partial : forall t, supported t = true -> wf_ty t = true -
 Proof. exact roundtrip. Qed.
 Print Assumptions C03_roundtrip_partial.
 
-(* through APCISequence and the tag codec down to octets, and back to identical octets.
-   _partial: the hypothesis that the emitted tags are well-formed (leaf data are octets with the right
-   length field, context numbers <= 254) is assumed, not derived from has_ty. *)
-Theorem C03_pdu_roundtrip_partial : forall els,
+(* through APCISequence and the tag codec (C02) down to octets, and back to identical octets.
+   val_wf v: the leaf tags and the tags inside Any values are well-formed tags (octets < 256, length
+   field = number of data octets); the well-formedness of everything the encoder adds (context
+   re-tagging, opening / closing tags) is derived (CodecWf.encode_tags_wf). *)
+Theorem C03_pdu_roundtrip : forall els,
   supported (TSeq els) = true -> wf_ty (TSeq els) = true ->
-  forall v ts, has_ty (TSeq els) v -> encode (TSeq els) v = Ok ts -> forallb wf_tag ts = true ->
+  forall v, has_ty (TSeq els) v -> val_wf v -> (exists ts, encode (TSeq els) v = Ok ts) ->
   exists bs, encode_pdu (TSeq els) v = Ok bs /\ decode_pdu (TSeq els) bs = Ok v /\
              forall v', decode_pdu (TSeq els) bs = Ok v' -> encode_pdu (TSeq els) v' = Ok bs.
-Proof. exact pdu_roundtrip. Qed.
-Print Assumptions C03_pdu_roundtrip_partial.
+Proof. exact pdu_roundtrip_wf. Qed.
+Print Assumptions C03_pdu_roundtrip.
+
+(* the encoder only emits well-formed tags *)
+Theorem C03_encode_tags_wf : forall t, wf_ty t = true -> forall v ts,
+  has_ty t v -> val_wf v -> encode t v = Ok ts -> forallb wf_tag ts = true.
+Proof. exact encode_tags_wf. Qed.
+Print Assumptions C03_encode_tags_wf.
 
 Theorem C03_reencode_identical : forall t, supported t = true -> wf_ty t = true ->
   forall v ts rest v' rest', has_ty t v -> encode t v = Ok ts -> rest_ok (avoid t) rest ->
@@ -155,6 +163,9 @@ Proof. cbn. repeat split; try (vm_compute; reflexivity); try lia. Qed.
 
 Example C03_has_ty_atomicreadfile_ack0 : has_ty T_AtomicReadFileACK ex_atomicreadfile_ack0.
 Proof. cbn. repeat split; try (vm_compute; reflexivity); try lia; constructor. Qed.
+
+Example C03_val_wf_readproperty : val_wf ex_readproperty /\ val_wf ex_atomicreadfile_ack0.
+Proof. cbn. repeat split; vm_compute; reflexivity. Qed.
 
 Example C03_rest_ok_example : rest_ok (avoid T_ReadPropertyRequest) [mkTag 0 2 1 [7]] /\
                               rest_ok (avoid T_ReadAccessResult) [close_tag 3].
